@@ -145,7 +145,10 @@ let emit_model oc stream r ctx ns =
     (fun _ -> if agree then pred_fields (List.hd preds) else alts_fields ctx ns) (maxmap_of ctx ns)
 
 (* ---------------------------------------------------------------- random contexts *)
-let skeys = [| "a"; "b"; "c"; "d"; "aa"; "B"; "10"; "9"; "1"; "z"; "k1"; "k2"; "Zed"; "ab" |]
+(* text keys; among them numbers written as text and text that starts like a number ("2" / "10" / "1a": an order that
+   compares numbers by value and everything else as text is not transitive on these) *)
+let skeys = [| "a"; "b"; "c"; "d"; "aa"; "B"; "10"; "9"; "1"; "z"; "k1"; "k2"; "Zed"; "ab"; "2"; "1a"; "10x"; "007"; "1.5"; "-3"; "2b" |]
+let is_int_text k = match int_of_string_opt k with Some i -> string_of_int i = k | None -> false
 let ikeys = [| 1; 2; 9; 10; 100; -1; 0; 33; 7; 21 |]
 let svals = [| "x"; "y"; "zz"; "Q"; "10"; "9"; "val"; "" |]
 
@@ -175,7 +178,7 @@ let rec gen_map r depth : value =
       let n = if rint r 3 = 0 then 8 + rint r 5 else n in
       let ks = distinct r n [| "a"; "b"; "c"; "d"; "aa"; "B"; "z"; "k1"; "k2"; "Zed"; "ab"; "10"; "9"; "1"; "100"; "33"; "7"; "21"; "2"; "0" |] in
       VMap (MAny, List.map (fun k ->
-        ((if k.[0] >= '0' && k.[0] <= '9' && rbool r then VInt (z_of_int (int_of_string k)) else VStr (b k)), gen_scalar r)) ks)
+        ((if is_int_text k && rbool r then VInt (z_of_int (int_of_string k)) else VStr (b k)), gen_scalar r)) ks)
       |> (fun m -> match m with VMap (_, kvs) when List.for_all (fun (k, _) -> is_vstr k) kvs && kvs <> [] ->
                      VMap (MAny, (VInt (z_of_int 5), VStr (b "five")) :: kvs) | m -> m)
   | _ -> VMap (MStrInt, List.map (fun k -> (VStr (b k), VInt (z_of_int (rrange r 0 50)))) (distinct r n skeys))
@@ -215,7 +218,7 @@ let gen_hash r ctx : expr =
   let n = 1 + rint r 4 in
   let ks = distinct r n skeys in
   EHash (List.map (fun k ->
-    ((if rint r 6 = 0 && String.length k > 0 && k.[0] >= '0' && k.[0] <= '9' then lit_i (int_of_string k) else lit_s k),
+    ((if rint r 6 = 0 && is_int_text k then lit_i (int_of_string k) else lit_s k),
      (match rint r 5 with 0 -> var "i" | 1 -> var "s" | 2 -> lit_s (pick r svals) | _ -> lit_i (rint r 20)))) ks)
 
 let key_lit (k : value) : expr = match k with VStr s -> ELit (LStr s) | VInt z -> ELit (LInt z) | _ -> ELit LNull
@@ -469,6 +472,12 @@ let run ~seed ~tier oc =
   let thorough = tier = "thorough" in
   (* fixed templates over the fixed context, listed in two entry orders *)
   List.iter (fun ns -> emit_model oc "fixed" r fixed_ctx ns; emit_model oc "fixed" r (List.rev fixed_ctx) ns) fixed_templates;
+  (* text keys that are numbers next to text keys that only start like numbers *)
+  let mixed ks = VMap (MAny, List.mapi (fun i k -> (VStr (b k), VInt (z_of_int (i + 1)))) ks) in
+  List.iter (fun ks ->
+      let ctx = [ (b "m", mixed ks); (b "n", m3) ] in
+      List.iter (fun ns -> emit_model oc "fixed" r ctx ns; emit_model oc "fixed" r (List.rev ctx) ns) (collide_templates @ merge_collide_templates))
+    [ [ "2"; "10"; "1a" ]; [ "9"; "10"; "1b"; "x"; "100" ]; [ "1a"; "2"; "10"; "2b"; "007"; "1.5" ]; [ "-3"; "3"; "-"; "10"; "1e1"; "a" ] ];
   (* generated *)
   let n = if thorough then 12000 else 700 in
   for _ = 1 to n do
